@@ -641,7 +641,7 @@ def run(ctx):
     import dask
     dask.config.set({"temporary-directory": ctx.scratch})
     design_check(ctx)
-    progs, pipes = gen_programs(ctx, n_layouts=ctx.pick(3, 9), n_two=ctx.pick(250, 3000), n_pipes=ctx.pick(120, 1500))
+    progs, pipes = gen_programs(ctx, n_layouts=ctx.pick(3, 9), n_two=ctx.pick(160, 3000), n_pipes=ctx.pick(90, 1500))
     viol, recs, skips = check_programs(ctx, progs + pipes, "observations: _meta vs computed object vs partitions")
     for s in skips:
         ctx.skip(s)
@@ -665,6 +665,8 @@ def run(ctx):
 # ----------------------------------------------------------------------------- replay
 def replay(ctx, obj):
     dd()
+    import dask
+    dask.config.set({"temporary-directory": ctx.scratch})
     C36.quiet()
     c = obj["case"]
     out = _work(c["prog"])
@@ -723,6 +725,8 @@ def selftest(ctx):
     import functools
     dd()
     C36.quiet()
+    import dask
+    dask.config.set({"temporary-directory": ctx.scratch})       # disk-based shuffles must not litter /tmp
     import dask.dataframe.dask_expr._expr as ex
     design_check(ctx)
     srcs = [{"seed": 5, "n": 8, "layout": [3, 0, 5], "mode": "unknown"}, {"seed": 11, "n": 9, "layout": [4, 5], "mode": "from_pandas"}]
